@@ -18,6 +18,9 @@ HARNESS = os.path.join(VERIF, "harness")
 COQ = os.path.join(VERIF, "coq")
 BUILD = os.path.join(VERIF, "build")
 REPO = os.environ.get("VERIF_REPO", "/repo")
+# runs against another tree than /repo (developers' worktrees, seeded changes) must not
+# overwrite the committed evidence or litter /verif/replays
+SCRATCH = os.environ.get("VERIF_SCRATCH") == "1" or os.path.realpath(REPO) != "/repo"
 PY = "/venv/bin/python"
 sys.path.insert(0, HARNESS)
 import coqlit  # noqa: E402
@@ -235,7 +238,10 @@ def eval_shard(mod, cases, rundir, tag):
     notes_by = {}
     for i, n in notes:
         notes_by.setdefault(i, n)
-    items = ["  (%s, %s)" % (mod.case_to_coq(c), coqlit.V(o)) for c, o in zip(cases, obs)]
+    if hasattr(mod, "case_to_coq2"):
+        items = ["  (%s, %s)" % (mod.case_to_coq2(c, o), coqlit.V(o)) for c, o in zip(cases, obs)]
+    else:
+        items = ["  (%s, %s)" % (mod.case_to_coq(c), coqlit.V(o)) for c, o in zip(cases, obs)]
     body = "Definition the_cases : list (%s * V) := [\n%s\n].\n" % (mod.CASE_TYPE, ";\n".join(items))
     body += "Eval vm_compute in (run_cases %s the_cases).\n" % mod.CHECKER
     rc, out = coq_eval(mod, body, rundir, tag)
@@ -254,8 +260,9 @@ def eval_shard(mod, cases, rundir, tag):
     return res
 
 
-def model_observation(mod, case, rundir, tag="modelobs"):
-    body = "Eval vm_compute in (V_flat (model %s %s)).\n" % (mod.CHECKER, mod.case_to_coq(case))
+def model_observation(mod, case, rundir, tag="modelobs", obs=None):
+    lit = mod.case_to_coq2(case, obs) if (hasattr(mod, "case_to_coq2") and obs is not None) else mod.case_to_coq(case)
+    body = "Eval vm_compute in (V_flat (model %s %s)).\n" % (mod.CHECKER, lit)
     rc, out = coq_eval(mod, body, rundir, tag)
     zs = parse_zlist(out) if rc == 0 else None
     if zs is None:
@@ -316,9 +323,10 @@ def shrink(mod, item, rundir, bit, budget_s=60):
 # ----------------------------------------------------------------------------- main check
 
 def write_replay(mod, kind, item, extra=None):
-    os.makedirs(os.path.join(VERIF, "replays"), exist_ok=True)
+    rdir = os.path.join(BUILD, "scratch-replays") if SCRATCH else os.path.join(VERIF, "replays")
+    os.makedirs(rdir, exist_ok=True)
     h = chash(item["case"])[:12] if item else hashlib.sha1(json.dumps(extra, sort_keys=True).encode()).hexdigest()[:12]
-    path = os.path.join(VERIF, "replays", "%s-%s-%s.json" % (mod.ID, kind, h))
+    path = os.path.join(rdir, "%s-%s-%s.json" % (mod.ID, kind, h))
     doc = {"property": mod.ID, "kind": kind}
     if item:
         doc.update(case=item["case"], impl_observation=item["obs"], verdict=item["verdict"],
@@ -471,7 +479,7 @@ def run_check(prop, tier, replay=None):
         keep_rundir = False
         first = min(failing, key=lambda r: len(json.dumps(r["case"])))
         small = shrink(mod, first, rundir, 1, budget_s=45 if tier == "quick" else 240)
-        small["model_observation"] = model_observation(mod, small["case"], rundir)
+        small["model_observation"] = model_observation(mod, small["case"], rundir, obs=small["obs"])
         path = write_replay(mod, "fails", small, {"model_observation": small["model_observation"],
                                                   "failing_cases_this_run": len(failing)})
         violations.append((path, ""))
@@ -494,7 +502,7 @@ def run_check(prop, tier, replay=None):
                     found = min(bad, key=lambda r: len(json.dumps(r["case"])))
         if found:
             small = shrink(mod, found, rundir, 1)
-            small["model_observation"] = model_observation(mod, small["case"], rundir)
+            small["model_observation"] = model_observation(mod, small["case"], rundir, obs=small["obs"])
             path = write_replay(mod, "fails", small, {"model_observation": small["model_observation"],
                                                       "found_by": "search after a broken correspondence/proof"})
             violations.append((path, ""))
@@ -504,7 +512,7 @@ def run_check(prop, tier, replay=None):
             if disagree:
                 item = min(disagree, key=lambda r: len(json.dumps(r["case"])))
                 item = shrink(mod, item, rundir, 2, budget_s=30)
-                item["model_observation"] = model_observation(mod, item["case"], rundir)
+                item["model_observation"] = model_observation(mod, item["case"], rundir, obs=item["obs"])
                 extra["correspondence"] = ("implementation and model (%s) differ on this case; the property "
                                            "oracle is still true on the implementation's observation" % mod.CHECKER)
                 extra["model_observation"] = item["model_observation"]
@@ -553,8 +561,9 @@ def run_check(prop, tier, replay=None):
             "wall_s": round(wall, 2),
             "violations": len(violations),
         }
-        os.makedirs(os.path.join(VERIF, "evidence"), exist_ok=True)
-        evp = os.path.join(VERIF, "evidence", prop + ".json")
+        edir = os.path.join(BUILD, "scratch-evidence") if SCRATCH else os.path.join(VERIF, "evidence")
+        os.makedirs(edir, exist_ok=True)
+        evp = os.path.join(edir, prop + ".json")
         json.dump(ev, open(evp, "w"), indent=1)
         okv, msg = validate_evidence(evp)
         if not okv:
